@@ -20,10 +20,17 @@
 //   removeoverlaps-coincident   the same with COINCIDENT centres: CmpNodePos falls back to comparing
 //                          heap addresses of the scan-line Nodes; run B forces a different address
 //                          order for the Node allocations (see Heap::scramble)
-//   route-translate        scene translated by (i,j)·2^-10: raw routes must translate exactly
+//   route-translate[-orth] scene translated by (i,j)·2^-10: raw routes must translate exactly (orthogonal scenes have
+//                          their own tag because their display routes are nudged)
 //   route-symmetry         the 8 symmetries of the square: route COST must not change
 //   vpsc-translate, vpsc-permute
 //   (two extra slots repeat route-twice / route-symmetry with the other connector type)
+//
+// Library assertions: built with -DUSE_ASSERT_EXCEPTIONS (check/props/C20.py), so a failed COLA_ASSERT throws
+// vpsc::CriticalFailure instead of aborting the whole stream.  A run that dies this way contributes the
+// pseudo vector `exc` (file line hash) — the failure itself must then be reproducible too — and the half-built
+// router is deliberately leaked (its state is undefined).  Known instance on the clean tree:
+// `vs[it->second]->id != freeSegmentID` in nudgeOrthogonalRoutes (orthogonal.cpp:3041), C10/C15 territory.
 //
 // Heap perturbation: ASan's quarantine and malloc-fill are switched off for this binary (see
 // __asan_default_options) so that freed chunks are recycled immediately, in LIFO order of the frees,
@@ -37,8 +44,16 @@
 #include "libvpsc/solve_VPSC.h"
 #include "libcola/cola.h"
 #include "libcola/compound_constraints.h"
+#include "libvpsc/assertions.h"
 #include <set>
 #include <map>
+#include <sstream>
+#if defined(__has_include)
+#if __has_include(<sanitizer/lsan_interface.h>)
+#include <sanitizer/lsan_interface.h>
+#define C20_LSAN 1
+#endif
+#endif
 
 extern "C" const char *__asan_default_options() {
     return "quarantine_size_mb=0:thread_local_quarantine_size_kb=0:max_malloc_fill_size=0:max_free_fill_size=0";
@@ -107,16 +122,20 @@ struct RScene {
     std::vector<Cn> conns;
     bool orth = false;
     double pen = 10;
+    double buf = 0;            // shapeBufferDistance (0 or 1/2; rectangles keep distance >= 1 from every connector end)
     int moveIdx = -1;          // shape moved (relative) + second processTransaction, or -1
     double mdx = 0, mdy = 0;
 };
 
 // grid scene: cells of side c, chosen cells get a rectangle with integer corners at distance >= 1 from the
 // cell border; connector ends are integer points ON cell border lines (hence outside every rectangle)
+static bool g_big = false;     // thorough tier: one scene in four is larger
 static RScene genScene(vh::Rng &r, bool orth, int maxShapes, int maxConns) {
     RScene s; s.orth = orth;
     long c = r.range(4, 9);
-    long nx = r.range(1, 4), ny = r.range(1, 4);
+    bool big = g_big && r.coin(1, 4);
+    long nx = r.range(1, big ? 6 : 4), ny = r.range(1, big ? 6 : 4);
+    if (big) { maxShapes *= 2; maxConns += 3; }
     int want = (int) r.range(1, maxShapes);
     std::vector<long> cells; for (long i = 0; i < nx * ny; ++i) cells.push_back(i);
     r.shuffle(cells);
@@ -143,7 +162,8 @@ static RScene genScene(vh::Rng &r, bool orth, int maxShapes, int maxConns) {
     }
     static const double pens[] = {10, 10, 0, 50, 3};
     s.pen = pens[r.range(0, 4)];
-    if (orth && s.pen == 0) s.pen = 1;          // orthogonal routing asserts segmentPenalty > 0 (makepath.cpp:796)
+    if (orth && s.pen == 0) s.pen = 1;
+    s.buf = r.coin(1, 4) ? 0.5 : 0.0;          // orthogonal routing asserts segmentPenalty > 0 (makepath.cpp:796)
     return s;
 }
 
@@ -179,7 +199,7 @@ static RScene frameScene(const RScene &s, int sym, double tx, double ty) {
 }
 
 static void printScene(const RScene &s) {
-    printf("orth %d\npen %s\n", (int) s.orth, H(s.pen).c_str());
+    printf("orth %d\npen %s\nbuf %s\n", (int) s.orth, H(s.pen).c_str(), H(s.buf).c_str());
     for (size_t i = 0; i < s.rects.size(); ++i)
         printf("rect %s %s %s %s\n", H(s.rects[i].x0).c_str(), H(s.rects[i].y0).c_str(), H(s.rects[i].x1).c_str(), H(s.rects[i].y1).c_str());
     for (size_t i = 0; i < s.conns.size(); ++i)
@@ -196,6 +216,7 @@ static Out routeScene(const RScene &s, Avoid::Router **keepAlive = nullptr) {
     Out o;
     Avoid::Router *router = new Avoid::Router(s.orth ? Avoid::OrthogonalRouting : Avoid::PolyLineRouting);
     router->setRoutingParameter(Avoid::segmentPenalty, s.pen);
+    router->setRoutingParameter(Avoid::shapeBufferDistance, s.buf);
     std::vector<Avoid::ShapeRef *> shapes;
     for (size_t i = 0; i < s.rects.size(); ++i) {
         Avoid::Rectangle poly(Avoid::Point(s.rects[i].x0, s.rects[i].y0), Avoid::Point(s.rects[i].x1, s.rects[i].y1));
@@ -205,19 +226,51 @@ static Out routeScene(const RScene &s, Avoid::Router **keepAlive = nullptr) {
     for (size_t i = 0; i < s.conns.size(); ++i)
         conns.push_back(new Avoid::ConnRef(router, Avoid::ConnEnd(Avoid::Point(s.conns[i].sx, s.conns[i].sy)),
                                            Avoid::ConnEnd(Avoid::Point(s.conns[i].tx, s.conns[i].ty))));
-    router->processTransaction();
     char lab[64];
+    bool failed = false;
+    auto guarded = [&](const char *stage) {
+        // allocations made inside a transaction that is abandoned by an exception are lost by the library
+        // itself (locals of nudgeOrthogonalRoutes); leak checking is C15's business, not this harness'
+#ifdef C20_LSAN
+        __lsan::ScopedDisabler noLeakCheck;
+#endif
+        try { router->processTransaction(); }
+        catch (vpsc::CriticalFailure &f) {
+            // what(): "... expression: E\n  at line N of FILE ..." -> one token, digits = line number
+            std::string w = f.what(); size_t p = w.find("at line ");
+            double line = p == std::string::npos ? -1 : atof(w.c_str() + p + 8);
+            size_t q = w.find("expression: "); std::string e = q == std::string::npos ? "?" : w.substr(q + 12, w.find('\n', q) - q - 12);
+            for (size_t i = 0; i < e.size(); ++i) if (e[i] == ' ') e[i] = '_';
+            printf("libassert %s %s %d\n", stage, e.c_str(), (int) line);
+            Vec v; v.push_back(line);
+            o.push_back(std::make_pair(std::string("exc-") + stage, v));
+            failed = true;
+        }
+    };
+    // raw routes are complete before the nudging stage, which is where the known assertion fires: they are
+    // recorded even when the transaction was abandoned; display routes only after a complete transaction
+    guarded("t1");
     for (size_t i = 0; i < conns.size(); ++i) {
         snprintf(lab, sizeof lab, "route%zu", i); o.push_back(std::make_pair(std::string(lab), polyVec(conns[i]->route())));
+        if (failed) continue;
         snprintf(lab, sizeof lab, "display%zu", i); o.push_back(std::make_pair(std::string(lab), polyVec(conns[i]->displayRoute())));
     }
-    if (s.moveIdx >= 0 && s.moveIdx < (int) shapes.size()) {
+    if (!failed && s.moveIdx >= 0 && s.moveIdx < (int) shapes.size()) {
         router->moveShape(shapes[s.moveIdx], s.mdx, s.mdy);
-        router->processTransaction();
+        guarded("t2");
         for (size_t i = 0; i < conns.size(); ++i) {
             snprintf(lab, sizeof lab, "mroute%zu", i); o.push_back(std::make_pair(std::string(lab), polyVec(conns[i]->route())));
+            if (failed) continue;
             snprintf(lab, sizeof lab, "mdisplay%zu", i); o.push_back(std::make_pair(std::string(lab), polyVec(conns[i]->displayRoute())));
         }
+    }
+    if (failed) {
+        // the router was abandoned in the middle of a transaction: do not run its destructor
+#ifdef C20_LSAN
+        __lsan_ignore_object(router);
+#endif
+        if (keepAlive) *keepAlive = nullptr;
+        return o;
     }
     if (keepAlive) *keepAlive = router; else delete router;
     return o;
@@ -245,7 +298,8 @@ static void caseRouteTwice(long k, vh::Rng &r, bool orth) {
     RScene s = genScene(r, orth, 7, 4);
     if (r.coin(1, 2) && !s.rects.empty()) {        // second transaction: move one shape a little inside its cell margin
         s.moveIdx = (int) r.range(0, (long) s.rects.size() - 1);
-        s.mdx = (double) r.range(-1, 1) * 0.5; s.mdy = (double) r.range(-1, 1) * 0.5;
+        double step = s.buf > 0 ? 0.25 : 0.5;      // shape (+ buffer) stays strictly inside its cell
+        s.mdx = (double) r.range(-1, 1) * step; s.mdy = (double) r.range(-1, 1) * step;
     }
     printScene(s);
     bool keepA = r.coin(1, 3);
@@ -267,8 +321,10 @@ static void caseRouteTwice(long k, vh::Rng &r, bool orth) {
 }
 
 static void caseRouteTranslate(long k, vh::Rng &r) {
-    vh::beginCase(k, "route-translate");
-    RScene s = genScene(r, r.coin(), 7, 4);
+    bool orth = r.coin();
+    // own tag for orthogonal scenes: their display routes are NUDGED (a VPSC solve with non-dyadic separations)
+    vh::beginCase(k, orth ? "route-translate-orth" : "route-translate");
+    RScene s = genScene(r, orth, 7, 4);
     double tx = std::ldexp((double) r.range(-(1L << 16), 1L << 16), -10), ty = std::ldexp((double) r.range(-(1L << 16), 1L << 16), -10);
     if (r.coin(1, 4)) { tx = std::floor(tx); }
     printScene(s);
@@ -415,7 +471,7 @@ static void caseVpscPermute(long k, vh::Rng &r) {
 }
 
 // ------------------------------------------------------------------------------------ removeoverlaps
-struct RO { std::vector<R4> rs; };   // x0,y0,x1,y1 = minX,minY,maxX,maxY
+struct RO { std::vector<R4> rs; std::set<unsigned> fixed; bool third = false; bool plain = true; };   // x0,y0,x1,y1 = minX,minY,maxX,maxY
 
 static Out runRemoveOverlaps(const RO &in, const std::vector<int> &allocOrder) {
     size_t n = in.rs.size();
@@ -424,7 +480,7 @@ static Out runRemoveOverlaps(const RO &in, const std::vector<int> &allocOrder) {
         int i = allocOrder[j];
         rs[i] = new vpsc::Rectangle(in.rs[i].x0, in.rs[i].x1, in.rs[i].y0, in.rs[i].y1);
     }
-    vpsc::removeoverlaps(rs);
+    if (in.plain) vpsc::removeoverlaps(rs); else vpsc::removeoverlaps(rs, in.fixed, in.third);
     Vec v;
     for (size_t i = 0; i < n; ++i) { v.push_back(rs[i]->getMinX()); v.push_back(rs[i]->getMaxX()); v.push_back(rs[i]->getMinY()); v.push_back(rs[i]->getMaxY()); }
     for (size_t i = 0; i < n; ++i) delete rs[i];
@@ -465,8 +521,14 @@ static void caseRemoveOverlaps(long k, vh::Rng &r, bool coincident) {
         }
         n = (int) in.rs.size();
     }
+    if (r.coin(1, 3)) {
+        in.plain = false; in.third = r.coin();
+        if (r.coin()) in.fixed.insert((unsigned) r.range(0, n - 1));
+    }
     printf("n %d\n", n);
     for (const R4 &q : in.rs) printf("r %s %s %s %s\n", H(q.x0).c_str(), H(q.x1).c_str(), H(q.y0).c_str(), H(q.y1).c_str());
+    printf("plain %d\nthird %d\nfixed", (int) in.plain, (int) in.third); for (unsigned f : in.fixed) printf(" %u", f);
+    printf("\n");
     std::vector<int> orderB = iota((size_t) n); r.shuffle(orderB);
     printf("allocB"); for (int x : orderB) printf(" %d", x);
     printf("\n"); fflush(stdout);
@@ -570,7 +632,8 @@ static void caseLayoutTwice(long k, vh::Rng &r) {
 int main(int argc, char **argv) {
     vh::Args a = vh::parseArgs(argc, argv);
     bool thorough = a.tier == "thorough";
-    long rounds = (thorough ? 150 : 30) * a.scale;
+    g_big = thorough;
+    long rounds = (thorough ? 1200 : 100) * a.scale;
     if (a.n >= 0) rounds = a.n;
     const int NCLASS = 11;
     for (long k = 0; k < rounds * NCLASS; ++k) {
